@@ -6,6 +6,7 @@ import NfpmModel.Cpio
 import NfpmModel.RpmHdr
 import NfpmModel.RpmFiles
 import NfpmModel.RpmRel
+import NfpmModel.RpmSig
 import NfpmModel.Package
 import NfpmModel.Spec.PlanSpec
 import NfpmModel.Spec.PayloadSpec
@@ -396,6 +397,14 @@ def handle (op : String) (args : List String) : Except String String :=
       | some rs => s!"{rs.length}" ++ String.join (rs.map (fun r => s!" {hex r.name} {r.sense} {hex r.version}"))
     pure (String.intercalate " | " [show1 1047 1113 1112, show1 1090 1115 1114, show1 5049 5050 5051, show1 5046 5047 5048,
       show1 1049 1050 1048, show1 1054 1055 1053])
+  -- rpm: the signature header entries rpmpack computes (unsigned part), and the payload digest entries
+  | "rpmsig" => do
+    let (digest, hdrLen, pzLen, payloadSize, pdigest) ← run1 (do
+      let d ← pBytes; let h ← pNat; let z ← pNat; let n ← pNat; let pd ← pBytes
+      pure (d, h, z, n, pd)) args
+    let es := RpmSig.sigEntries (fun _ => digest) none (List.replicate hdrLen 0) (List.replicate pzLen 0) payloadSize
+      ++ RpmSig.digestEntries (fun _ => pdigest) []
+    pure (s!"{es.length}" ++ String.join (es.map (fun e => s!" {e.tag} {e.typ} {e.count} {hex e.data}")))
   | _ => .error s!"unknown op {op}"
 
 partial def loop (hin : IO.FS.Stream) (hout : IO.FS.Stream) : IO Unit := do
